@@ -2,6 +2,8 @@
 #include "c01_diff.h"
 #include "c03_alu.h"
 #include "c04_mulshift.h"
+#include "c08_stack.h"
+#include "c09_loops.h"
 
 int main(int argc, char** argv) {
     verif::Args args = verif::Args::Parse(argc, argv);
@@ -13,13 +15,21 @@ int main(int argc, char** argv) {
             return c01::RunReplay(args.replay, res);
         if (args.replay.rfind("c01 gen", 0) == 0)
             return c01::RunGenReplay(args.replay, res);
+        if (args.replay.rfind("c09", 0) == 0)
+            return c09::RunReplay(args.replay, res);
+        if (args.replay.rfind("c08", 0) == 0)
+            return c08::RunReplay(args.replay, res);
         if (args.replay.rfind("c04", 0) == 0)
             return c04::RunReplay(args.replay, res);
         if (args.replay.rfind("c03", 0) == 0)
             return c03::RunReplay(args.replay, res);
         return 2;
     }
-    if (args.sub == "c04") {
+    if (args.sub == "c09") {
+        c09::Run(args, res);
+    } else if (args.sub == "c08") {
+        c08::Run(args, res);
+    } else if (args.sub == "c04") {
         c04::Run(args, res);
     } else if (args.sub == "c03") {
         c03::Run(args, res);
